@@ -669,7 +669,7 @@ func generate(s *state, r *rng, thorough bool) {
 	s.emit("D;"+opsString(acmelib.NewBus("bus").CANIDBuilder()), "D", false)
 	nTrip, nIllegalTrip, nRandom, nWorld := 12, 3, 4000, 2500
 	if thorough {
-		nTrip, nIllegalTrip, nRandom, nWorld = 150, 12, 120000, 60000
+		nTrip, nIllegalTrip, nRandom, nWorld = 400, 16, 400000, 200000
 	}
 
 	// (a) all 4 x 560 legal single operations, alone (prev = 0) and after a seeding operation that
